@@ -586,10 +586,39 @@ func checkPublishLoop(c *km.Ctx, pub *ssa.Function) {
 	// "known" edges
 	type edge struct{ from, to *ssa.BasicBlock }
 	known := map[edge]bool{}
-	fpKeyed := func(m ssa.Value) bool { // a set whose keys are all fingerprints
+	var fpKeyed func(m ssa.Value) bool
+	fpKeyed = func(m ssa.Value) bool { // a set whose keys are all fingerprints
 		mk, ok := km.Unwrap(m).(*ssa.MakeMap)
 		if !ok {
-			return false
+			// built by a constructor helper: every map it hands back is such a set
+			cl, idx := callRes(km.CellOrigin(km.Unwrap(m)))
+			if cl == nil {
+				return false
+			}
+			g := km.StaticCallee(cl.Common())
+			if g == nil || g.Blocks == nil || g == pub {
+				return false
+			}
+			n := 0
+			for _, b := range g.Blocks {
+				ret, isRet := b.Instrs[len(b.Instrs)-1].(*ssa.Return)
+				if !isRet {
+					continue
+				}
+				rv := km.ReturnValues(ret)
+				if idx >= len(rv) {
+					return false
+				}
+				v := km.Unwrap(rv[idx])
+				if km.IsNilConst(v) {
+					continue
+				}
+				if _, isMk := v.(*ssa.MakeMap); !isMk || !fpKeyed(v) {
+					return false
+				}
+				n++
+			}
+			return n > 0
 		}
 		n := 0
 		for _, ref := range *mk.Referrers() {
